@@ -62,6 +62,25 @@ func runC14(c *fw.Ctx) {
 		}
 		d := append(bson.D{{Key: "_id", Value: int32(1)}}, gen.Doc(r, o, false)...)
 		proj := genProjection(r, d)
+		switch idx % 16 {
+		case 3:
+			// a document-valued _id holding an array, with an overlay inside it
+			// (the _id is copied into every inclusion result)
+			d[0].Value = bson.D{{Key: "k", Value: int32(1)}, {Key: "arr", Value: bson.A{int32(1), int32(2), int32(3)}}}
+			proj = bson.D{{Key: "_id.arr", Value: bson.D{{Key: "$slice", Value: fw.Pick(r, []interface{}{int32(1), int32(-1), bson.A{int32(1), int32(1)}})}}}}
+			if len(d) > 1 {
+				proj = append(proj, bson.E{Key: d[1].Key, Value: int32(1)})
+			} else {
+				proj = append(proj, bson.E{Key: "zz", Value: int32(1)})
+			}
+			if r.Bool() {
+				proj[0], proj[1] = proj[1], proj[0]
+			}
+		case 7, 11:
+			// parent and nested paths, nested operator overlays
+			d = append(d, bson.E{Key: "w", Value: bson.A{bson.D{{Key: "b", Value: bson.A{int32(1), int32(2)}}, {Key: "c", Value: int32(1)}}, bson.D{{Key: "b", Value: bson.A{int32(3)}}}}})
+			proj = gen.Projection(r, d, gen.ProjOpts{Overlap: true})
+		}
 		describe := func() interface{} {
 			return map[string]interface{}{"doc": gen.JSON(d), "projection": gen.JSON(proj)}
 		}
